@@ -15,7 +15,7 @@ import shutil
 import tempfile
 import itertools
 
-from .common import Part
+from .common import Part, reset_global_memo
 from . import e2
 
 import supp.scope
@@ -74,7 +74,7 @@ class World(object):
         for i in range(len(chain) - 2, -1, -1):
             self.ver[chain[i]] = 0
             self.write(chain[i], self.content(chain[i], 0))
-        supp.scope.builtin_scope.__dict__.pop('names', None)   # process-global memo: every world starts from a fresh one
+        reset_global_memo()   # process-global memo: every world starts from a fresh one
         self.project = Project([root])
         self.x = os.path.join(root, 'x.py')
         self.reqs = requests(chain, with_d)
